@@ -116,6 +116,9 @@ type Runner struct {
 	ownerInjN int
 	// armed in-pass cache sync: before call number syncInjN of the next pass the lagging reader catches up
 	syncInjN int
+	// armed concurrent write: right before PKO's touchInjN-th write on one of its own API objects in the next pass a
+	// third party updates that object (resourceVersion moves on)
+	touchInjN, touchCount, touchSeq int
 	// InPassHook lets a property inject third-party actions inside a pass.
 	InPassHook func(r *Runner, c *kubesim.Call)
 	// Log collects a short human readable trace digest.
@@ -205,6 +208,13 @@ func (r *Runner) beforeCall(c *kubesim.Call) kubesim.Fault {
 			r.injectOn(c.Key, r.injKind)
 		}
 	}
+	if r.touchInjN > 0 && c.Actor == "pko" && !c.DryRun && c.Key.Group == engine.PKOGroup && (c.Verb == "update" || c.Verb == "patch" || c.Verb == "update-status") {
+		r.touchCount++
+		if r.touchCount == r.touchInjN {
+			r.touchInjN = 0
+			r.touchObject(c.Key)
+		}
+	}
 	if r.faultKind != kubesim.FaultNone && c.NCall == r.faultNCall {
 		k := r.faultKind
 		r.faultKind = kubesim.FaultNone
@@ -215,6 +225,29 @@ func (r *Runner) beforeCall(c *kubesim.Call) kubesim.Fault {
 		return k
 	}
 	return kubesim.FaultNone
+}
+
+// touchObject: somebody else (another controller updating status, a user annotating) writes the object PKO is about
+// to write, after PKO read it: PKO's update carries a stale resourceVersion and is answered with a conflict.
+func (r *Runner) touchObject(k kubesim.Key) {
+	cur := r.W.Store.Peek(k)
+	if cur == nil {
+		return
+	}
+	r.touchSeq++
+	r.W.ActAs("thirdparty", func(c client.Client) {
+		u := engine.U(cur)
+		a := u.GetAnnotations()
+		if a == nil {
+			a = map[string]string{}
+		}
+		a["verif.example/touched"] = strconv.Itoa(r.touchSeq)
+		u.SetAnnotations(a)
+		if err := c.Update(r.W.Ctx, u); err == nil {
+			r.Labels["concurrent-write-before-pko-write"] = true
+			r.Labels["concurrent-write-before-pko-write:"+k.Kind] = true
+		}
+	})
 }
 
 func mod(i, n int) int {
@@ -638,6 +671,7 @@ func (r *Runner) Reconcile(ctrlName string, key kubesim.Key) (*PassView, error) 
 	p := r.W.RunPass(ctrlName, engine.Req(key.Namespace, key.Name))
 	r.faultKind = kubesim.FaultNone
 	r.injN, r.injCount, r.ownerInjN, r.syncInjN = 0, 0, 0, 0
+	r.touchInjN, r.touchCount = 0, 0
 	if p.Panic != nil {
 		return nil, Violf("C19", "panic:"+panicKey(p.PanicStack), "controller %s panicked: %v\n%s", ctrlName, p.Panic, trunc(p.PanicStack, 1800))
 	}
@@ -683,6 +717,7 @@ var AllControllers = []string{
 func (r *Runner) Quiesce() (int, bool, error) {
 	// disturbances stop: drop armed faults / injections
 	r.faultKind = kubesim.FaultNone
+	r.touchInjN = 0
 	r.injN, r.ownerInjN, r.syncInjN = 0, 0, 0
 	for round := 1; round <= r.MaxQuiesceRounds; round++ {
 		before := r.W.Store.RV()
@@ -749,6 +784,9 @@ func (r *Runner) Exec(idx int, st Step) error {
 		kinds := []kubesim.Fault{kubesim.FaultErrorBefore, kubesim.FaultLostResponse, kubesim.FaultCrash, kubesim.FaultCrashAfter}
 		r.faultKind = kinds[mod(st.J, len(kinds))]
 		r.faultNCall = 1 + mod(st.I, 40)
+	case "injectTouch":
+		r.touchInjN = 1 + mod(st.I, 6)
+		r.touchCount = 0
 	case "injectSync":
 		r.syncInjN = 2 + mod(st.I, 4)
 	case "injectOwnerEdit":
